@@ -159,8 +159,7 @@ ImplRephScan(buf, idx, cons, vow, has, chan, step) ==
          ELSE ImplRephScan(buf, idx + 1, cons, vow, has, chan, step)   \* PINNED TREE: foreign char is skipped, not counted
 
 ImplReph(s) ==
-    IF s.buf = <<>> THEN Crash(s)                               \* PINNED TREE: unwrap() on None
-    ELSE IF ImplRephMoveable(s.buf)
+    IF s.buf # <<>> /\ ImplRephMoveable(s.buf)                 \* empty: "not moveable" (fix 1 of known_findings)
          THEN LET step == ImplRephScan(s.buf, 0, FALSE, FALSE, FALSE, FALSE, 0)
               IN [s EXCEPT !.buf = Insert(s.buf, Len(s.buf) - step, REPH)]
          ELSE [s EXCEPT !.buf = s.buf \o REPH]
